@@ -75,6 +75,26 @@ def rule_accessors(ctx):
     t = A.fn_text(fn)
     tt = texts(fn)
     need(ctx, "try_into:grouping", "variants_per_types.entry((ref_type,field_types.clone())).or_insert_with(Vec::new).push(multi_field_data.clone())" in t and "for ref_type in variant_info.ref_types()" in t, w, "TryInto: variants are no longer grouped by (reference kind, enabled field types)")
+    # every reference kind the *variant's own* info asks for is grouped, unconditionally; the variant's info and field
+    # types come from the same `enabled_fields_data()` of that variant
+    loops = [fl for fl, _ in A.find(fn.block, "Expr::ForLoop") if A.render(fl["expr"]).endswith(".ref_types()")]
+    ok = False
+    why = "no `for ref_type in <variant info>.ref_types()` loop"
+    if len(loops) == 1:
+        fl = loops[0]
+        src = A.render(fl["expr"])[: -len(".ref_types()")]
+        body = fl["body"]["stmts"]
+        one = len(body) == 1 and A.kind(body[0]) == "Stmt::Expr" and A.wfull(A.render(body[0]["0"]), "variants_per_types.entry((ref_type,field_types.clone())).or_insert_with(Vec::new).push(multi_field_data.clone())") is not None
+        from_variant = A.wsearch(t, "let MultiFieldData{variant_info:variant_info,field_types:field_types,..}=multi_field_data.clone()") is not None and A.wsearch(t, "let multi_field_data=variant_state.enabled_fields_data()") is not None and src == "variant_info"
+        ok = one and from_variant
+        why = ("the loop body is not the single unconditional insertion" if not one else f"the reference kinds are taken from `{src}` instead of the variant's own `variant_info`")
+    need(
+        ctx,
+        "try_into:ref-kinds",
+        ok,
+        w,
+        f"TryInto: {why}: a variant-level `#[try_into(ref_mut)]` (or `owned` / `ref`) no longer yields the `TryFrom<&mut Enum>` impl for that variant's field types (or yields one the variant did not ask for)",
+    )
     need(ctx, "try_into:matcher", "matchers.push(multi_field_data.matcher(&multi_field_data.field_indexes,&patterns),)" in t.replace(" ", "").replace("matchers.push(multi", "matchers.push(multi") or "multi_field_data.matcher(&multi_field_data.field_indexes,&patterns)" in t, w, "TryInto: patterns are no longer built by `matcher(field_indexes, binders)`")
     need(ctx, "try_into:binders", 'let vars=&numbered_vars(original_types.len(),"")' in t and "vars.iter().map(|var|quote!(#pattern_ref#var)).collect()" in t, w, "TryInto: binders are no longer one per target-tuple component, in order")
     need(ctx, "try_into:body", any("matchvalue{#(#matchers)|*=>derive_more::core::result::Result::Ok(#vars),_=>derive_more::core::result::Result::Err(derive_more::TryIntoError::new(value,#variant_names,#output_type),),}" in s for s in tt), w, "TryInto: body is no longer `match value { <matchers> => Ok(binders), _ => Err(TryIntoError::new(value, ..)) }` (the error must carry the unmatched original)", {"templates": tt[-1:]})
@@ -202,6 +222,33 @@ def rule_discriminants(ctx):
     want = {"(Some(_),None)": "Ok(prev)", "(None,None)": "Ok(prev)", "(None,Some(_))": "Ok(new)"}
     for p, b in want.items():
         need(ctx, f"repr:merge:{p}", arms.get(p) == b, ctx.where(mg.file, mg.node), f"merging `#[repr]` attributes {p} yields `{arms.get(p)}` instead of `{b}`: an integer repr followed by a separate non-integer `#[repr(align(..))]` is forgotten and `isize` is assumed")
+    # the consumer asks the merging parser about *all* attributes of the item
+    ex = A.get_fn(ctx.files, rel, "expand")
+    et = A.fn_text(ex)
+    lit = next((x for x, _ in A.find(ex.block, "Expr::Struct") if A.path_last(x["path"]) == "Expansion"), None)
+    rv = None
+    if lit is not None:
+        for fv in lit["fields"]:
+            if A.kind(fv["member"]) == "Member::Named" and fv["member"]["0"]["sym"] == "repr":
+                rv = A.render(fv["expr"])
+    need(
+        ctx,
+        "repr:all-attrs",
+        rv is not None and re.fullmatch(r'attr::ReprInt::parse_attrs\(&input\.attrs,&format_ident!\("repr"\)\)\?\.map\(Spanning::into_inner\)\.unwrap_or_default\(\)', rv) is not None,
+        ctx.where(ex.file, ex.node),
+        f"the enum's representation is read as `{rv}` and not by `ReprInt::parse_attrs(&input.attrs, \"repr\")` over *all* of the item's attributes (merged by `merge_attrs`): "
+        "with `#[repr(align(4))] #[repr(u8)]` only one attribute is looked at, `isize` is assumed and `TryFrom<isize>` is generated instead of `TryFrom<u8>`",
+    )
+    # the entry accepts every enum: one unguarded arm per kind of item
+    mt = next((m for m, _ in A.find(ex.block, "Expr::Match") if A.render(m["expr"]) in ("&input.data", "input.data")), None)
+    arms_ = [(A.render_pat(a["pat"]), a.get("guard")) for a in mt["arms"]] if mt else []
+    need(
+        ctx,
+        "entry:every-enum",
+        mt is not None and [p for p, _ in arms_] == ["syn::Data::Struct(data)", "syn::Data::Enum(data)", "syn::Data::Union(data)"] and not any(g for _, g in arms_),
+        ctx.where(ex.file, ex.node),
+        f"`expand` no longer dispatches on the kind of item alone (arms {[p + (' if ..' if g else '') for p, g in arms_]}): enums of some shape (e.g. without unit variants, for which every integer must simply be `Err`) are refused or handled by another arm",
+    )
     need(ctx, "repr:merge:both", (arms.get("(Some(_),Some(_))") or "").startswith("Err("), ctx.where(mg.file, mg.node), "two integer reprs are no longer an error")
 
 
@@ -211,6 +258,17 @@ def rule_discriminants(ctx):
 def rule_from_str(ctx):
     """FROMSTR: enum arms compare the lower-cased input with the lower-cased un-raw variant name using the *same* case mapping on both sides; a group with one member matches case-insensitively, every member of a larger group is guarded by `src == "<exact name>"`; everything else returns `FromStrError::new(<type name>)`; only field-less variants are accepted; a newtype delegates to `<Field as FromStr>::from_str(src)?` and re-uses the field's error type."""
     rel = "impl/src/from_str.rs"
+    ex = A.get_fn(ctx.files, rel, "expand")
+    et = A.fn_text(ex)
+    need(
+        ctx,
+        "from_str:dispatch",
+        A.wsearch(et, "if state.derive_type==DeriveType::Enum{Ok(enum_from(input,state,trait_name))}else {Ok(struct_from(&state,trait_name))}") is not None
+        or A.wsearch(et, "if state.derive_type!=DeriveType::Enum{Ok(struct_from(&state,trait_name))}else {Ok(enum_from(input,state,trait_name))}") is not None,
+        ctx.where(ex.file, ex.node),
+        "`expand` no longer sends exactly the enums (`state.derive_type == DeriveType::Enum`) to `enum_from` and everything else to `struct_from`: deciding by another observation (e.g. 'has variants') sends an enum without variants to the struct path, which panics instead of generating the impl that rejects every string",
+        {"body": et[:300]},
+    )
     fn = A.get_fn(ctx.files, rel, "enum_from")
     w = ctx.where(fn.file, fn.node)
     t = A.fn_text(fn)
